@@ -195,6 +195,10 @@ class Hooks:
     def tensor_attr(self, interp, recv, name, node, fi):
         return NotImplemented
 
+    def truthy(self, interp, value, node, fi):
+        """Truth value of a symbolic value in this scenario (e.g. a seed symbol stands for a non-zero seed)."""
+        return NotImplemented
+
     def on_yield(self, interp, value, node, fi):
         return NotImplemented
 
@@ -663,6 +667,9 @@ class Interp:
                 return c != 0
         if isinstance(v, (Obj, ClassRef, Closure, BoundMethod)):
             return True
+        t = self.hooks.truthy(self, v, node, fi)
+        if t is not NotImplemented:
+            return t
         if allow_unknown:
             return None
         raise self.err(f"branch on a value the analysis cannot decide: `{ast.unparse(node)[:80]}` = {v!r}", node, fi)
@@ -728,17 +735,19 @@ class Interp:
         return self.eval(e.body if self.truth(e.test, env, fi) else e.orelse, env, fi)
 
     def _e_BoolOp(self, e, env, fi):
+        # Python semantics: the last operand is returned as it is, its truth value is never taken
+        last = len(e.values) - 1
         if isinstance(e.op, ast.And):
             v = True
-            for x in e.values:
+            for i, x in enumerate(e.values):
                 v = self.eval(x, env, fi)
-                if not self.truth_value(v, x, fi):
+                if i < last and not self.truth_value(v, x, fi):
                     return v
             return v
         v = False
-        for x in e.values:
+        for i, x in enumerate(e.values):
             v = self.eval(x, env, fi)
-            if self.truth_value(v, x, fi):
+            if i < last and self.truth_value(v, x, fi):
                 return v
         return v
 
